@@ -61,7 +61,8 @@ Placement(E, k) == IF E = {} THEN [edges |-> <<>>, diagonal |-> [v \in 1..NV |->
                                      LET e == CHOOSE x \in S : Cardinality({y \in S : y[1] < x[1] \/ (y[1] = x[1] /\ y[2] < x[2])}) = i - 1
                                      IN [a |-> BlockRange(e[1], k), b |-> BlockRange(e[2], k)]],
                          diagonal |-> <<>>]
-BlockCfgs == [kind : {"blocks"}, E : SUBSET Pairs, mode : {"concatenation", "subtraction"}, bias : {0, 1}, comp : {<<>>}]
+\* ncomp = 0: plain inverse; otherwise Inv is the pseudo-inverse restricted to the ncomp LARGEST principal directions of the block
+BlockCfgs == [kind : {"blocks"}, E : SUBSET Pairs, mode : {"concatenation", "subtraction"}, bias : {0, 1}, comp : {<<>>}, ncomp : {0, 1, 2, 3, 5}]
 Init == /\ cfg \in (IF "blocks" \in Kinds THEN BlockCfgs ELSE {}) \cup (IF "batch" \in Kinds THEN {c \in BatchCfgs : NonSingular(c.E, c.mode, c.bias, NS)} ELSE {}) \cup (IF "incr" \in Kinds THEN IncrCfgs ELSE {})
         /\ done = FALSE
 Out(c) == IF c.kind = "blocks" THEN [case |-> c, nv |-> NV, k |-> 2, placement |-> Placement(c.E, 2)] ELSE
